@@ -358,6 +358,55 @@ def rule_r6(repo, col):
                        "answers is lost" % ", ".join(missing), construct="_builtin_findall_base: auxiliary target flags", function="_builtin_findall_base")
 
 
+def rule_r7(repo, col):
+    """every `_` inside a local scope (the goal of findall/3, all/3, a negation) is a variable of its own: the key under which _AutoDict registers it is derived from a counter
+    that the same registration advances, so the next `_` gets another key"""
+    from .. import dtable
+    from ..astutil import is_self_attr
+
+    c = repo.cls("problog.clausedb", "_AutoDict")
+    f = c.methods.get("__getitem__")
+    if f is None:
+        raise AnalysisError("_AutoDict.__getitem__ missing")
+    m = f.module
+    key = f.params[1]
+    paths = dtable.extract(f.node, opaque_loops=True)
+    n = 0
+    for p_ in paths:
+        cd = [(s_, t_) for s_, t_, _ in p_.conds]
+        if ("%s == '_'" % key, True) not in cd or not any(s_.endswith("localmode") and t_ for s_, t_ in cd):
+            continue
+        newkey = p_.env.get(key)
+        if newkey is None:
+            raise AnalysisError("_AutoDict.__getitem__: the anonymous variable of a local scope gets no key of its own")
+        inserted = [a for fn, a, _ in p_.calls if fn == "<store>" and a and a[0].startswith("self[")]
+        if not inserted:
+            continue
+        n += 1
+        try:
+            ke = ast.parse(newkey, mode="eval").body
+        except SyntaxError:
+            raise AnalysisError("_AutoDict.__getitem__: key expression not parseable")
+        deps = sorted({x.attr for x in ast.walk(ke) if is_self_attr(x)})
+        if any(isinstance(x, ast.Call) and norm(x.func) == "len" and norm(x.args[0]) == "self" for x in ast.walk(ke)):
+            deps.append("<len(self)>")
+        if not deps:
+            raise AnalysisError("_AutoDict.__getitem__: key %s depends on no counter" % newkey)
+        advanced = set()
+        for fn, a, _ in p_.calls:
+            if fn.startswith("<augstore") and a and a[0].startswith("self."):
+                advanced.add(a[0][5:])
+            if fn.startswith("self.") and fn.rsplit(".", 1)[-1] in ("add", "append"):
+                advanced.add(fn.split(".")[1])
+            if fn == "<store>" and a and a[0].startswith("self["):
+                advanced.add("<len(self)>")
+        col.decide("R7", m, f.node, all(d in advanced for d in deps), "registering a local `_` advances the counter its key is derived from (%s)" % ", ".join(deps),
+                   "_AutoDict.__getitem__ registers a `_` of a local scope under the key %s, but registering it does not change %s: the next `_` of the same scope gets the same key and "
+                   "therefore the SAME variable - \\+ e(_,_) is evaluated as \\+ e(X,X) and findall(X, t(X,_,_), L) as findall(X, t(X,A,A), L)" % (newkey, ", ".join(d for d in deps if d not in advanced)),
+                   construct="_AutoDict.__getitem__: local anonymous key not advanced", function="_AutoDict.__getitem__")
+    col.floor("R7.local_anonymous_registrations", n, 1)
+
+
 def run(repo, col):
     col.rule("R5", "the answer buffer records every proof node (duplicates included)")
     col.rule("R1", "ClauseIndex.find returns clause ids in program order (abstract interpretation)")
@@ -370,3 +419,5 @@ def run(repo, col):
     rule_r5(repo, col)
     col.rule("R6", "findall/3 proves its goal in a fresh order-keeping formula")
     rule_r6(repo, col)
+    col.rule("R7", "anonymous variables of a local scope are pairwise distinct")
+    rule_r7(repo, col)
